@@ -31,8 +31,8 @@ type vQOp struct {
 }
 
 type vQPath struct {
-	Mult int     `json:"mult"`
-	Ops  []vQOp  `json:"ops"`
+	Mult int    `json:"mult"`
+	Ops  []vQOp `json:"ops"`
 }
 
 type vQLine struct {
@@ -86,9 +86,9 @@ func vQMsg(uid string, n int) []byte {
 }
 
 type vQRun struct {
-	q    *TransmitLimitedQueue
-	nn   int
-	log  []string
+	q     *TransmitLimitedQueue
+	nn    int
+	log   []string
 	byMsg map[string]string
 }
 
